@@ -205,7 +205,7 @@ func (s *Server) DidChange(ctx context.Context, params *protocol.DidChangeTextDo
 		s.resolved.Delete(params.TextDocument.URI)
 		version := s.nextDocVersionLocked(params.TextDocument.URI)
 		s.docMu.Unlock()
-		s.payeeTemplatesCache.Delete(params.TextDocument.URI)
+		s.dropPayeeTemplates(params.TextDocument.URI)
 		if path := uriToPath(params.TextDocument.URI); path != "" {
 			if s.workspace != nil {
 				s.workspace.UpdateFile(path, content)
@@ -229,7 +229,7 @@ func (s *Server) DidClose(ctx context.Context, params *protocol.DidCloseTextDocu
 	s.resolved.Delete(params.TextDocument.URI)
 	s.nextDocVersionLocked(params.TextDocument.URI)
 	s.docMu.Unlock()
-	s.payeeTemplatesCache.Delete(params.TextDocument.URI)
+	s.dropPayeeTemplates(params.TextDocument.URI)
 	tokenCache.delete(params.TextDocument.URI)
 	if path := uriToPath(params.TextDocument.URI); path != "" {
 		if s.workspace != nil {
@@ -273,7 +273,7 @@ func (s *Server) reanalyseIncluders(ctx context.Context, path string, except pro
 }
 
 func (s *Server) DidSave(ctx context.Context, params *protocol.DidSaveTextDocumentParams) error {
-	s.payeeTemplatesCache.Delete(params.TextDocument.URI)
+	s.dropPayeeTemplates(params.TextDocument.URI)
 
 	if path := uriToPath(params.TextDocument.URI); path != "" {
 		if s.workspace != nil {
@@ -287,6 +287,17 @@ func (s *Server) DidSave(ctx context.Context, params *protocol.DidSaveTextDocume
 		s.reanalyseIncluders(ctx, path, params.TextDocument.URI)
 	}
 	return nil
+}
+
+// dropPayeeTemplates forgets the posting templates cached for the document and
+// for every other document: the templates of a document also come from the
+// files it includes, and any of them may be the one that just changed.
+func (s *Server) dropPayeeTemplates(docURI protocol.DocumentURI) {
+	s.payeeTemplatesCache.Delete(docURI)
+	s.payeeTemplatesCache.Range(func(key, _ any) bool {
+		s.payeeTemplatesCache.Delete(key)
+		return true
+	})
 }
 
 // nextDocVersionLocked counts one more notification for the document; docMu is held.
